@@ -537,6 +537,20 @@ func (b *bgen) injectScenario(name string, rootDefs, paths M, aux map[string]M, 
 		g.hit("scenario:collide-nested")
 	case "unused-chain":
 		// definitions that become unused only after another one is removed, through names that need escaping
+		if g.p(0.5) {
+			// isolated: nothing else is unused, so that the chain alone drives the removal fixpoint
+			for _, m := range []M{rootDefs, paths, params, resps} {
+				for k := range m {
+					delete(m, k)
+				}
+			}
+			for k := range aux {
+				delete(aux, k)
+			}
+			rootDefs["used"] = M{"type": "object", "properties": M{"v": M{"type": "string"}}}
+			paths["/scn/used"] = M{"get": resp(M{"$ref": "#/definitions/used"})}
+			g.hit("scenario:unused-chain-isolated")
+		}
 		a, c := g.pick([]string{"legacy/item", "old~v1", "dead code", "zz"}), g.pick([]string{"leaf", "Leaf node", "l/2"})
 		rootDefs[a] = M{"type": "object", "properties": M{"next": M{"$ref": "#/definitions/" + jsonPtrEscape(c)}}}
 		rootDefs[c] = M{"type": "string"}
